@@ -100,6 +100,7 @@ type resInfo struct {
 	req   simvk.ResReq
 	owner int  // allocation slot that owns it (cbuf/cimg) or -1 for raw
 	bound bool // harness belief
+	at    int  // allocation slot it is bound to (raw binds), or -1
 }
 
 type moveInfo struct {
@@ -338,6 +339,11 @@ func (w *World) noteAlloc(a int, size, align int, reqTB, ctb uint32, pool, flags
 
 func (w *World) markDead(a int) {
 	si := &w.sinfo[a]
+	for r := range w.res {
+		if w.res[r].live && w.res[r].bound && w.res[r].at == a {
+			w.dev.ForgetBinding(w.res[r].id) // the memory under a bound raw resource went away
+		}
+	}
 	si.live = false
 	si.userMaps = 0
 	si.written = false
@@ -429,8 +435,10 @@ func (w *World) exec(op Op) StepResult {
 		if !w.slotOK(a) || !w.sinfo[a].everUsed || w.inPendingMove(a) {
 			return skip()
 		}
-		if w.sinfo[a].live && w.sinfo[a].res >= 0 {
-			return skip() // owned resource must go through dbuf/dimg
+		if w.sinfo[a].live && (w.sinfo[a].res >= 0 || w.sinfo[a].userMaps > 0) {
+			// an owned resource must go through dbuf/dimg; freeing an allocation the caller still has mapped
+			// is a caller error
+			return skip()
 		}
 		err := w.slots[a].Free()
 		if err == nil {
@@ -443,7 +451,7 @@ func (w *World) exec(op Op) StepResult {
 			return skip()
 		}
 		for i := a0; i < a0+n; i++ {
-			if !w.sinfo[i].live || w.inPendingMove(i) || w.sinfo[i].res >= 0 {
+			if !w.sinfo[i].live || w.inPendingMove(i) || w.sinfo[i].res >= 0 || w.sinfo[i].userMaps > 0 {
 				return skip()
 			}
 		}
@@ -540,7 +548,7 @@ func (w *World) exec(op Op) StepResult {
 		return w.execCreateResource(op)
 	case "dbuf", "dimg":
 		r, a := A(0), A(1)
-		if r < 0 || r >= maxRes || !w.res[r].live || !w.slotOK(a) || !w.sinfo[a].live || w.sinfo[a].res != r || w.inPendingMove(a) {
+		if r < 0 || r >= maxRes || !w.res[r].live || !w.slotOK(a) || !w.sinfo[a].live || w.sinfo[a].res != r || w.inPendingMove(a) || w.sinfo[a].userMaps > 0 {
 			return skip()
 		}
 		var err error
@@ -635,6 +643,7 @@ func (w *World) exec(op Op) StepResult {
 		}
 		if err == nil {
 			w.res[r].bound = true
+			w.res[r].at = a
 		}
 		return result(res, err)
 	case "dbegin", "dpass", "dmove", "dend", "dfin":
@@ -746,7 +755,12 @@ func (w *World) execCreateResource(op Op) StepResult {
 			return skip()
 		}
 		req := simvk.ResReq{Size: A(2), Alignment: A(3), TypeBits: uint32(A(4)), RequiresDedicated: A(5) != 0, PrefersDedicated: A(6) != 0}
-		w.dev.SetPendingReq(&req)
+		if p := A(13); p >= 0 && req.TypeBits&(1<<uint(w.pools[p].typ)) == 0 {
+			return skip() // choosing a pool whose memory type the resource cannot use is a caller error
+		}
+		devReq := req
+		devReq.IgnoreGranularity = A(13) >= 0 && w.pools[A(13)].flags&pfIgnoreGranularity != 0
+		w.dev.SetPendingReq(&devReq)
 		defer w.dev.SetPendingReq(nil)
 		w.cur.neverAlloc = A(9)&fNeverAllocate != 0
 		info := core1_0.BufferCreateInfo{Size: A(2), Usage: core1_0.BufferUsageFlags(A(7))}
@@ -759,7 +773,7 @@ func (w *World) execCreateResource(op Op) StepResult {
 			buf, res, err = w.alloc.CreateBuffer(info, ci, &w.slots[a])
 		}
 		if err == nil {
-			w.res[r] = resInfo{live: true, id: simvk.BufferID(buf), kind: simvk.KindBuffer, buf: buf, req: req, owner: a, bound: A(9)&fDontBind == 0}
+			w.res[r] = resInfo{live: true, id: simvk.BufferID(buf), kind: simvk.KindBuffer, buf: buf, req: req, owner: a, bound: A(9)&fDontBind == 0, at: a}
 			align := A(3)
 			if A(14) > align {
 				align = A(14)
@@ -775,7 +789,12 @@ func (w *World) execCreateResource(op Op) StepResult {
 		return skip()
 	}
 	req := simvk.ResReq{Size: A(3), Alignment: A(4), TypeBits: uint32(A(5)), RequiresDedicated: A(6) != 0, PrefersDedicated: A(7) != 0}
-	w.dev.SetPendingReq(&req)
+	if p := A(14); p >= 0 && req.TypeBits&(1<<uint(w.pools[p].typ)) == 0 {
+		return skip()
+	}
+	devReq := req
+	devReq.IgnoreGranularity = A(14) >= 0 && w.pools[A(14)].flags&pfIgnoreGranularity != 0
+	w.dev.SetPendingReq(&devReq)
 	defer w.dev.SetPendingReq(nil)
 	w.cur.neverAlloc = A(10)&fNeverAllocate != 0
 	tiling := core1_0.ImageTilingOptimal
@@ -787,7 +806,7 @@ func (w *World) execCreateResource(op Op) StepResult {
 	info := core1_0.ImageCreateInfo{Extent: core1_0.Extent3D{Width: A(3), Height: 1, Depth: 1}, MipLevels: 1, ArrayLayers: 1, Tiling: tiling, Usage: core1_0.ImageUsageFlags(A(8))}
 	img, res, err := w.alloc.CreateImage(info, ci, &w.slots[a])
 	if err == nil {
-		w.res[r] = resInfo{live: true, id: simvk.ImageID(img), image: true, kind: rk, img: img, req: req, owner: a, bound: A(10)&fDontBind == 0}
+		w.res[r] = resInfo{live: true, id: simvk.ImageID(img), image: true, kind: rk, img: img, req: req, owner: a, bound: A(10)&fDontBind == 0, at: a}
 		wantDed := A(10)&fDedicated != 0 || A(9) == uLazy || (req.RequiresDedicated && w.cfg.Dev.API >= 11)
 		w.noteAlloc(a, A(3), A(4), uint32(A(5)), uint32(A(13)), A(14), A(10), kind, wantDed, r)
 	}
@@ -806,7 +825,7 @@ func (w *World) execRawResource(op Op) StepResult {
 		defer w.dev.SetPendingReq(nil)
 		buf, res, err := w.drv.Driver.CreateBuffer(nil, core1_0.BufferCreateInfo{Size: A(1)})
 		if err == nil {
-			w.res[r] = resInfo{live: true, id: simvk.BufferID(buf), kind: simvk.KindBuffer, buf: buf, req: req, owner: -1}
+			w.res[r] = resInfo{live: true, id: simvk.BufferID(buf), kind: simvk.KindBuffer, buf: buf, req: req, owner: -1, at: -1}
 		}
 		return result(res, err)
 	}
@@ -819,7 +838,7 @@ func (w *World) execRawResource(op Op) StepResult {
 	}
 	img, res, err := w.drv.Driver.CreateImage(nil, core1_0.ImageCreateInfo{Extent: core1_0.Extent3D{Width: A(2), Height: 1, Depth: 1}, MipLevels: 1, ArrayLayers: 1, Tiling: tiling})
 	if err == nil {
-		w.res[r] = resInfo{live: true, id: simvk.ImageID(img), image: true, kind: rk, img: img, req: req, owner: -1}
+		w.res[r] = resInfo{live: true, id: simvk.ImageID(img), image: true, kind: rk, img: img, req: req, owner: -1, at: -1}
 	}
 	return result(res, err)
 }
